@@ -243,9 +243,11 @@ def gen_prog(r, pid, services=False, scopes=False):
                     ret = None if (oneway or r.chance(25)) else arg_ty()
                     throws, tid = [], 0
                     if not oneway and excs:
-                        for _ in range(r.intn(3)):
+                        # each exception type at most once per method: two throws entries of one type make the
+                        # emitted Go `switch err.(type)` have duplicate cases (does not compile) — noted in DESIGN §8
+                        for et in r.shuffle(excs)[:r.intn(3)]:
                             tid += 1 + r.intn(2)
-                            throws.append((tid, "e%d" % tid, r.pick(excs)))
+                            throws.append((tid, "e%d" % tid, et))
                     methods.append({"name": mn, "oneway": oneway, "args": args, "ret": ret, "throws": throws})
                 p.services[(f, n)] = {"extends": ext, "methods": methods}
                 p.order[f].append(("v", n))
